@@ -582,7 +582,7 @@ pub fn replay(v: &Value) -> Outcome {
 
 pub fn run(env: &Env, known: &Known, started: Instant, replayed: u64, replay_violations: Vec<Violation>) -> i32 {
     crate::doc::verify_catalogue();
-    let cfg = ChoiceRun { env, pid: PID, part: "layouts", cases: env.tier.pick(120_000, 3_000_000), max_len: 400, known };
+    let cfg = ChoiceRun { env, pid: PID, part: "layouts", cases: env.tier.pick(300_000, 3_000_000), max_len: 400, known };
     let rr = run_choices(&cfg, run_case);
     let ev = Evidence {
         env, pid: PID, level: "exploration",
